@@ -99,16 +99,25 @@ def dagger_series(S):
 
 
 class Problem:
-    def __init__(self, cfg):
+    def __init__(self, cfg, E=None, classes=None, terms_data=None):
+        """cfg as described in the module docstring; E / classes / terms_data override the generated symbolic data
+        (used by the relational checks C12-C15 which need two related problems over the same variables)."""
         self.cfg = cfg
+        self._E_override = E
+        self._classes_override = classes
+        self._terms_override = terms_data
         self.hermitian = bool(cfg.get("hermitian", True))
         self.sizes = list(cfg["sizes"])
         self.nb = len(self.sizes)
         self.N = sum(self.sizes)
         self.off = np.cumsum([0] + self.sizes)
         self.blockof = [b for b, s in enumerate(self.sizes) for _ in range(s)]
-        self.terms = [tuple(t) for t in cfg.get("terms", [[1]])]
-        self.nparams = len(self.terms[0])
+        if terms_data is not None:
+            self.terms = sorted(tuple(t) for t in terms_data)
+            self.nparams = len(self.terms[0]) if self.terms else int(cfg.get("nparams", 1))
+        else:
+            self.terms = [tuple(t) for t in cfg.get("terms", [[1]])]
+            self.nparams = len(self.terms[0])
         self.max_order = int(cfg.get("max_order", 2))
         self.orders = orders_upto(self.nparams, self.max_order)
         self.zero_order = (0,) * self.nparams
@@ -123,7 +132,18 @@ class Problem:
         cplx = not self.hermitian and self.cfg.get("complex_spectrum", True)
         N = self.N
         self.E_num = None
-        if spec == "sym":
+        if self._E_override is not None:
+            self.E = [lift(e) for e in self._E_override]
+            cv = [e.const_value() for e in self.E]
+            if all(c is not None for c in cv):
+                self.E_num = cv
+            if self._classes_override is not None:
+                self.classes = list(self._classes_override)
+            else:
+                assert self.E_num is not None, "symbolic E override needs explicit classes"
+                uniq = {}
+                self.classes = [uniq.setdefault(v, len(uniq)) for v in self.E_num]
+        elif spec == "sym":
             classes = self.cfg.get("classes") or list(range(N))
             ev = {}
             self.E = []
@@ -157,6 +177,10 @@ class Problem:
             self.H0[i, i] = self.E[i]
         self.H = Series((N, N), self.nparams, {self.zero_order: self.H0})
         real_only = self.cfg.get("real", False)
+        if self._terms_override is not None:
+            for t, M in self._terms_override.items():
+                self.H.data[tuple(t)] = np.asarray(M, dtype=object)
+            return
         for t_i, t in enumerate(self.terms):
             name = "h" + "".join(map(str, t)) + "_"
             if self.hermitian or self.cfg.get("hermitian_input", False):
@@ -227,7 +251,10 @@ class Problem:
         terms = self.H.data
         zo = self.zero_order
 
+        self.h_calls = []
+
         def Heval(i, j, *order):
+            self.h_calls.append((int(i), int(j), *map(int, order)))
             if tuple(order) == zo:
                 return h0_blocks[i] if i == j else zero
             M = terms.get(tuple(order))
